@@ -37,6 +37,36 @@ CLAIMED["C05"] = dict(
     design="§5 C05", technique="Lean 4 proof: projection/simulation onto a single-key cell, induction over histories; solo-vs-interleaved differential runs",
     note=COMMON_NOTE + " Global monotonicity of timestamps is a hypothesis (without it a sweep triggered by another key is observable: that is C17's subject).")
 
+CLAIMED["C03"] = dict(
+    text="Proof (Lean 4), for every response produced from every reachable state of a fixed-limits key in D (reachability: C03_reachable; a probe appended to any multi-key history on any store is one more step on the key's cell: C03_probe_is_cell_step): "
+         "limit = max_burst, 0 <= remaining <= limit, retry_after = 0 iff admitted (C03_limit_remaining_retry); remaining exact - at the same instant q tokens are admitted iff q <= remaining (C03_remaining_exact, _admitted_next_denied); "
+         "a denied request of quantity <= burst is admitted exactly retry_after later and denied 1 ns earlier, also across expiry (C03_retry_honoured); reset_after >= time to regain the full burst (C03_reset_ge_refill); every write carries ttl = reset_after (C03_reset_eq_lifetime); after reset_after the key answers as never seen (C03_reset_then_fresh). "
+         "O leg: the same probes executed on the real code by re-executing the prefix on a fresh limiter.",
+    design="§5 C03", technique="Lean 4 proof (per-step facts over the bucket simulation invariant) + differential correspondence + re-execution probes",
+    note=COMMON_NOTE + " Domain D; probes at now + retry_after must stay <= 2100-01-01.")
+CLAIMED["C04"] = dict(
+    text="Proof (Lean 4): on every store model (any kind/config/scheduling state), for ARBITRARY requests (any keys, any limits per request, valid or not) and any timestamp order: a request answered with an error, a denial, or carrying quantity 0 leaves the whole store state literally unchanged and issues no write (C04_no_effect_state); "
+         "hence deleting it from any history changes no other response (C04_deleting_changes_nothing); rejected requests issue no store operation at all, for any Store implementation (C04_error_no_state). "
+         "O leg: base history vs history with inserted no-effect requests on the real code, plus entry counts through the snapshot hook.",
+    design="§5 C04", technique="Lean 4 proof (state-equality lemma + history surgery) + insertion differential runs",
+    note=COMMON_NOTE + " Uses C08_no_internal (a write after a get at the same instant succeeds on the built-in stores).")
+CLAIMED["C07"] = dict(
+    text="Proof (Lean 4): lifetime - every write of an admitted request in D asks for E <= ttl <= 2*B*E (C07_ttl_bounds), denied/zero-quantity requests write nothing, and once the lifetime has passed the key answers exactly as never seen (C07_forgetting_unobservable); "
+         "reclamation - sweep postcondition; each store's guaranteed cleanup point sweeps (periodic: now >= next_cleanup; adaptive: now >= next_cleanup or operation budget; probabilistic: N-th write while ops*2654435761 < 2^64, and every write for N = 1), after which every held entry is unexpired and keys are distinct (C07_reclaimed_*). "
+         "Partial in one respect: the probabilistic trigger after the 64-bit product wraps (~6.9e9 writes) is not proved (theorem named _partial). O leg: unbounded fresh-key streams on the real stores, entry set inspected through the hook after every guaranteed point.",
+    design="§5 C07", technique="Lean 4 proof (lifetime arithmetic on D; per-store trigger lemmas) + state-level differential correspondence",
+    note=COMMON_NOTE + " 'bounded number of entries' is stated as: after a guaranteed cleanup point all held entries are live and keys are pairwise distinct (at most one entry per active key); the counting step to |active set| is not formalised.")
+CLAIMED["C08"] = dict(
+    text="Proof (Lean 4) over the bit-precise model for ALL i64 limits/quantity, every emission interval 0 <= E < 2^64 (universally quantified: no float reasoning), every stored value, timestamps 1970..2200: error classification with no store access (C08_errors), limit = burst, 0 <= remaining <= burst, retry = 0 iff admitted, all durations in range (C08_decision_fields), fresh key admits q <= burst incl. every saturation case (C08_fresh_admits), never an internal error with the built-in stores (C08_no_internal, _history), and the explicit arithmetic side-conditions of every panic site (C08_panic_sites). "
+         "M/O: boundary lattice 16^4 (thorough 24^4) x timestamps x fresh/pre-populated x 3 stores, harness built with overflow checks on and off, every call under catch_unwind.",
+    design="§5 C08", technique="Lean 4 proof over saturating-i64 model (case analysis on each clamp) + exhaustive boundary-lattice differential runs in debug and release",
+    note=COMMON_NOTE + " 'No panic' = the model is total AND C08_panic_sites discharges each Rust panic site (sub, div, casts, SystemTime+Duration); that the listed sites are all the sites is by reading rate_limit (no unsafe, no indexing).")
+CLAIMED["C18"] = dict(
+    text="Proof (Lean 4) over a soft-float (binary64, round-to-nearest-even) replica of from_count_and_period: for 1 <= period <= 9e6 and 1 <= count <= period*1e9 the interval is exactly floor(period*1e9/count) (C18_floor; bracket, rate-not-below, excess < 1/E corollaries); unit constructors agree with the general one for every n in 1..2^32-1 (C18_unit_constructors); non-positive arguments give the blocking rate (C18_nonpositive_blocking). "
+         "M: Rate::period() vs the soft-float model on a boundary lattice, divisors/near-divisors and random points in and outside D; O: the double inequality in u128 on the real code.",
+    design="§5 C18", technique="Lean 4 proof about a soft-float model (rounding lemma rneDiv_shift_floor) + differential runs against the hardware floats",
+    note=COMMON_NOTE + " IEEE-754 conformance of the hardware/LLVM is trusted; the soft-float model is validated only by the differential runs.")
+
 NOT_YET = "check under construction in this session (model + theorems + correspondence not yet registered)"
 
 def main():
